@@ -237,6 +237,8 @@ def check(r):
         "attitude statements assume roll, heading in the open interval (-180, 180) and |pitch| < 90 "
         "(heading = +-180 exactly is on the branch cut of as_euler and is excluded)",
         "position rows assume alt >= -1000 km (denominators Rn + alt > 0) and |lat| < 90",
+        "C05_state_diff_recovers_perturbation (the C18 clause) is proved for every E and every attitude: "
+        "d/de|0 compute_state_difference(perturb_pva(pva, e E), pva) = E (|lat| < 90, alt >= -1000 km)",
         "C05(c) perturb-then-correct is stated for e = T_out y (equivalently y = T_inv e) with T evaluated at the "
         "unperturbed state; the implementation check uses transform_to_internal at the perturbed state",
     ]
